@@ -10,8 +10,10 @@ pub mod report;
 pub mod rng;
 pub mod sock;
 pub mod trace;
+pub mod warm;
 
 pub use exec::*;
 pub use report::*;
 pub use rng::{fnv, fnv_mix, Rng};
 pub use sock::*;
+pub use warm::{warm_up, with_history};
